@@ -32,12 +32,13 @@ type Step struct {
 	Value  string
 	Bare   bool     // assignment written as a bare word (bool option or radio choice)
 	Args   []string // command arguments (focus/ignore words, count, -cum)
-	Redir  int      // 0 stdout, 1 ">fileN", 2 "> fileN", 3 ">failN" (the writer refuses to open it)
+	Redir  int      // 0 stdout, 1 ">fileN", 2 "> fileN", 3 ">failN" (the writer refuses to open it), 4 ">same" (one file name used by several commands)
 }
 
 type histCase struct {
 	P     *gen.Prof
 	Steps []Step
+	Real  bool // redirected output is written by pprof itself, as files in the working directory
 }
 
 var boolOpts = []string{"call_tree", "relative_percentages", "mean", "drop_negative", "trim", "noinlines", "showcolumns", "compact_labels"}
@@ -62,7 +63,7 @@ func genRegexWord(t *rapid.T, p *gen.Prof, label string) string {
 
 func genCase(t *rapid.T) *histCase {
 	p := rep.GenProfile(t, profOpts)
-	c := &histCase{P: p}
+	c := &histCase{P: p, Real: rapid.IntRange(0, 3).Draw(t, "realfiles") == 0}
 	n := rapid.IntRange(2, 9).Draw(t, "nsteps")
 	for i := 0; i < n; i++ {
 		if rapid.IntRange(0, 2).Draw(t, "isassign") == 0 {
@@ -106,7 +107,7 @@ func genCase(t *rapid.T) *histCase {
 			c.Steps = append(c.Steps, s)
 			continue
 		}
-		s := Step{Name: rapid.SampledFrom(cmds).Draw(t, "cmd"), Redir: rapid.SampledFrom([]int{0, 1, 1, 2, 3}).Draw(t, "redir")}
+		s := Step{Name: rapid.SampledFrom(cmds).Draw(t, "cmd"), Redir: rapid.SampledFrom([]int{0, 1, 1, 2, 3, 4, 4}).Draw(t, "redir")}
 		if (s.Name == "svg" || s.Name == "png") && s.Redir == 0 {
 			s.Redir = 1 // needs Graphviz; fails either way
 		}
@@ -170,6 +171,8 @@ func (s Step) line(i int) string {
 		l += fmt.Sprintf(" > out%d", i)
 	case 3:
 		l += fmt.Sprintf(" >fail%d", i)
+	case 4:
+		l += " >same"
 	}
 	return l
 }
@@ -180,8 +183,10 @@ type sessOut struct {
 	res    *pp.Res
 }
 
-func runSession(p *profile.Profile, lines []string) sessOut {
-	o := sess.Run(p, lines)
+func runSession(p *profile.Profile, lines []string) sessOut { return runSessionReal(p, lines, false) }
+
+func runSessionReal(p *profile.Profile, lines []string, real bool) sessOut {
+	o := sess.RunOpts(p, lines, real)
 	return sessOut{files: o.Files, stdout: o.Stdout, res: o.Res}
 }
 
@@ -275,7 +280,20 @@ func check(c *histCase, o *vk.Obs) []string {
 	for i, s := range c.Steps {
 		lines = append(lines, s.line(i))
 	}
-	full := runSession(p, lines)
+	if c.Real {
+		// pprof's own file writer cannot be made to fail by name
+		for i := range c.Steps {
+			if c.Steps[i].Redir == 3 {
+				c.Steps[i].Redir = 1
+			}
+		}
+		lines = nil
+		for i, s := range c.Steps {
+			lines = append(lines, s.line(i))
+		}
+		o.Label("real-output-files")
+	}
+	full := runSessionReal(p, lines, c.Real)
 	if full.res.Panic != "" {
 		return []string{fmt.Sprintf("interactive session %q panicked: %s", lines, full.res.Panic)}
 	}
@@ -288,6 +306,8 @@ func check(c *histCase, o *vk.Obs) []string {
 	var assigns []string
 	var wantStdout strings.Builder
 	var wantAnn []string
+	var lastSame string
+	okSame, sameStep := false, -1
 	mutating := false
 	nontrivial := false
 	for i, s := range c.Steps {
@@ -304,7 +324,7 @@ func check(c *histCase, o *vk.Obs) []string {
 		o.Label("cmd:" + s.Name)
 		// the reference session starts with a trivially succeeding command: state that pprof keeps in
 		// process-global variables would otherwise leak from the previous reference session into this one
-		fresh := runSession(p, append(append([]string{"comments >flush"}, assigns...), s.line(i)))
+		fresh := runSessionReal(p, append(append([]string{"comments >flush"}, assigns...), s.line(i)), c.Real)
 		if fresh.res.Panic != "" {
 			return []string{"fresh session panicked: " + fresh.res.Panic}
 		}
@@ -315,6 +335,14 @@ func check(c *histCase, o *vk.Obs) []string {
 			wantAnn = append(wantAnn, a)
 		}
 		name := fmt.Sprintf("out%d", i)
+		if s.Redir == 4 {
+			// what the shared file holds at the end is what the last command writing to it put there
+			if content, ok := fresh.files["same"]; ok {
+				// (a command that fails writes nothing and leaves the file as it was)
+				lastSame, okSame, sameStep = content, true, i
+			}
+			continue
+		}
 		o.LabelIf(s.Redir == 3 || s.Name == "svg" || s.Name == "png", "failing-command")
 		if s.Redir == 3 {
 			continue
@@ -328,6 +356,12 @@ func check(c *histCase, o *vk.Obs) []string {
 		} else {
 			wantStdout.WriteString(fresh.stdout)
 		}
+	}
+	if sameStep >= 0 {
+		if got, ok := full.files["same"]; ok != okSame || got != lastSame {
+			e.Addf("several commands wrote to the file \"same\"; at the end it does not hold what the last of them (step %d %q) writes in a fresh session.\nhistory: %q\n--- fresh session\n%.700s\n--- after the history\n%.700s", sameStep, c.Steps[sameStep].line(sameStep), lines, lastSame, got)
+		}
+		o.Label("shared-output-file")
 	}
 	// where the reports went: the "Generating report in <file>" announcements (temporary file names are numbered
 	// by what already exists in the directory, so the number is masked)
@@ -362,7 +396,7 @@ func check(c *histCase, o *vk.Obs) []string {
 
 func TestPropHistory(t *testing.T) {
 	vk.Main(t, vk.Spec[histCase]{ID: "C10", Facet: "history", Quick: 1500, Thorough: 8000, Gen: genCase, Check: check, Journal: true, CaseTimeout: 120 * time.Second,
-		Rule: "histories of 3..10 interactive lines over one generated profile: option assignments (name=value, bare bool, bare or assigned radio choice, filters built from the profile's own names, tag options, numeric options, sample_index) interleaved with report commands carrying their own arguments (focus/ignore words, counts, -cum, redirection in both spellings, or stdout); oracle: history independence - every command's output equals the output of a fresh session that replays only the option assignments in effect and then that command (files byte for byte, stdout as the in-order concatenation); the last command additionally against the same session run in a new process (cmd/xsession), plus a fixed canary session recorded in the pristine process and repeated after every history (state left behind in process globals); non-trivial = a mutating report or assignment (filters, granularity, tagroot, noinlines, command arguments) precedes a later command"})
+		Rule: "histories of 3..10 interactive lines over one generated profile: option assignments (name=value, bare bool, bare or assigned radio choice, filters built from the profile's own names, tag options, numeric options, sample_index) interleaved with report commands carrying their own arguments (focus/ignore words, counts, -cum, redirection in both spellings, to one file name shared by several commands, or stdout; a quarter of the histories let pprof write the files itself in the working directory); oracle: history independence - every command's output equals the output of a fresh session that replays only the option assignments in effect and then that command (files byte for byte, stdout as the in-order concatenation); the last command additionally against the same session run in a new process (cmd/xsession), plus a fixed canary session recorded in the pristine process and repeated after every history (state left behind in process globals); non-trivial = a mutating report or assignment (filters, granularity, tagroot, noinlines, command arguments) precedes a later command"})
 }
 
 // ---- facet web: responses depend only on the request ----
@@ -374,6 +408,9 @@ type webCase struct {
 
 func genWeb(t *rapid.T) *webCase {
 	p := rep.GenProfile(t, profOpts)
+	if rapid.Bool().Draw(t, "comments") {
+		p.Comments = rapid.SampledFrom([][]string{{"c1"}, {"c1", "c2"}, {"c1", "c1"}, {"#hidden", "shown"}}).Draw(t, "commentlist")
+	}
 	c := &webCase{P: p}
 	n := rapid.IntRange(3, 8).Draw(t, "nreq")
 	for i := 0; i < n; i++ {
